@@ -161,26 +161,30 @@ var Snaps = []Snap{
 	{Name: "20:t/1-REPLICA_NOT_AVAILABLE", Brokers: brks(1, 2), Ctrl: 2, Topics: []Topic{
 		{Name: "t", Parts: []Part{ok(0, 1, i32(1, 2), i32(1, 2), nil), {ID: 1, Leader: 2, Rep: i32(2, 3), Isr: i32(2), Err: EReplicaNA}}},
 		{Name: "u", Parts: []Part{ok(0, 2, i32(2), i32(2), nil)}}}},
-	// ---- thorough tier only (QuickSnaps = the 21 above)
-	{Name: "21:t-middle-partition-removed", Brokers: brks(1, 2), Ctrl: 1, Topics: []Topic{
+	// (same shape as snapshot 4 - two partitions, one of them leaderless - but the OTHER one: only the identity differs)
+	{Name: "21:t/1-leaderless", Brokers: brks(1, 2), Ctrl: 1, Topics: []Topic{
+		{Name: "t", Parts: []Part{ok(0, 1, i32(1, 2), i32(1, 2), nil), lna(1, i32(2, 1), i32(1))}},
+		{Name: "u", Parts: []Part{ok(0, 2, i32(2), i32(2), nil)}}}},
+	// ---- thorough tier only (QuickSnaps = the 22 above)
+	{Name: "22:t-middle-partition-removed", Brokers: brks(1, 2), Ctrl: 1, Topics: []Topic{
 		{Name: "t", Parts: []Part{ok(0, 1, i32(1, 2), i32(1, 2), nil), ok(2, 2, i32(2), i32(2), nil)}},
 		{Name: "u", Parts: []Part{ok(0, 2, i32(2), i32(2), nil)}}}},
-	{Name: "22:both-brokers-readdressed+u-LEADER_NOT_AVAILABLE-topic", Brokers: brks(-1, -2), Ctrl: 1, Topics: []Topic{
+	{Name: "23:both-brokers-readdressed+u-LEADER_NOT_AVAILABLE-topic", Brokers: brks(-1, -2), Ctrl: 1, Topics: []Topic{
 		{Name: "t", Parts: []Part{ok(0, 1, i32(1, 2), i32(1, 2), nil), ok(1, 2, i32(2, 1), i32(2), nil)}},
 		{Name: "u", Err: ELeaderNA, Parts: []Part{lna(0, i32(2), nil)}}}},
-	{Name: "23:u-INVALID_TOPIC+t-on-three-brokers", Brokers: brks(1, 2, 3), Ctrl: 2, Topics: []Topic{
+	{Name: "24:u-INVALID_TOPIC+t-on-three-brokers", Brokers: brks(1, 2, 3), Ctrl: 2, Topics: []Topic{
 		{Name: "t", Parts: []Part{ok(0, 3, i32(3), i32(3), nil), ok(1, 1, i32(1), i32(1), nil), ok(2, 2, i32(2), i32(2), nil)}},
 		{Name: "u", Err: EInvalidTop}}},
-	{Name: "24:t/0-leader-minus-one-without-error", Brokers: brks(1, 2), Ctrl: 1, Topics: []Topic{
+	{Name: "25:t/0-leader-minus-one-without-error", Brokers: brks(1, 2), Ctrl: 1, Topics: []Topic{
 		{Name: "t", Parts: []Part{ok(0, -1, i32(1, 2), nil, nil), ok(1, 2, i32(2, 1), i32(2), nil)}},
 		{Name: "u", Parts: []Part{ok(0, 2, i32(2), i32(2), nil)}}}},
-	{Name: "25:controller-id-not-listed", Brokers: brks(1, 2), Ctrl: 3, Topics: []Topic{
+	{Name: "26:controller-id-not-listed", Brokers: brks(1, 2), Ctrl: 3, Topics: []Topic{
 		{Name: "t", Parts: []Part{ok(0, 1, i32(1, 2), i32(1, 2), nil), ok(1, 2, i32(2, 1), i32(2), nil)}},
 		{Name: "u", Parts: []Part{ok(0, 2, i32(2), i32(2), nil)}}}},
 }
 
 // QuickSnaps is the number of snapshots used by the quick tier (the thorough tier uses all).
-const QuickSnaps = 21
+const QuickSnaps = 22
 
 // Answer is what a broker holding snapshot s answers to a metadata request for the given topics
 // (none = all): every broker and the controller; for a full request every topic entry of the
